@@ -583,8 +583,111 @@ fn run(p: &Plan, ctx: &RunCtx) -> bodyx::Ran<Obs> {
     bodyx::Ran { observed: out.result, history: out.history, sched_tape: out.sched_tape, seen, plain_out: Vec::new() }
 }
 
+/// A peer that goes silent for longer than the read timeout and then carries on as if nothing had happened:
+/// the silence was longer than the caller allowed, so it is reported - by whichever call sat through it -
+/// whatever comes afterwards.  (The stall families above never resume.)
+fn resume_family(g: &mut G, ctx: &RunCtx) -> RunReport {
+    g.probe("family:stall-longer-than-the-read-timeout-then-resume");
+    let n = g.size(3000).max(1);
+    let payload = g.payload(n);
+    let coded = g.below(3);
+    let mut plan = if coded == 0 {
+        bodyx::plan_from_payload(g, payload.clone(), vec![])
+    } else {
+        use std::io::Write;
+        let (label, bytes): (&str, Vec<u8>) = if coded == 1 {
+            let mut e = flate2::write::GzEncoder::new(Vec::new(), flate2::Compression::default());
+            e.write_all(&payload).unwrap();
+            ("gzip", e.finish().unwrap())
+        } else {
+            let mut e = flate2::write::DeflateEncoder::new(Vec::new(), flate2::Compression::default());
+            e.write_all(&payload).unwrap();
+            ("deflate", e.finish().unwrap())
+        };
+        g.probe("resume:coded-body");
+        let mut pl = bodyx::plan_from_payload(g, bytes, vec![("Content-Encoding".to_string(), label.as_bytes().to_vec())]);
+        pl.payload = payload.clone();
+        pl
+    };
+    let r_ms = *g.pick(&[100u64, 400, 1000]);
+    let pause_ms = *g.pick(&[r_ms + r_ms / 10, r_ms * 3 / 2, 2 * r_ms - 1, 2 * r_ms + 1, 5 * r_ms]);
+    let head_len = plan.wire.head_len;
+    let frame_end = plan.wire.frame_end;
+    let (k, phase) = match g.below(5) {
+        0 => (0, "before-status-line"),
+        1 => (g.usize_below(head_len), "inside-head"),
+        2 => (head_len, "between-head-and-body"),
+        _ => (head_len + g.usize_below(frame_end - head_len + 1), "inside-body"),
+    };
+    // a complete length- or chunk-framed body needs nothing more from the peer: pause before its last octet
+    let k = if plan.framing != Framing::Close { k.min(frame_end.saturating_sub(1)) } else { k };
+    let wire = plan.wire.bytes.clone();
+    let (segs, _) = gen::segmentation(g, k, &plan.wire.targets.clone());
+    let mut sc = Script::from_wire(&wire[..k], &segs, End::Stall);
+    sc.acts.push(Act::Wait(pause_ms * NS_PER_MS));
+    if k < wire.len() {
+        sc.acts.push(Act::Send(wire[k..].to_vec()));
+    }
+    sc.acts.push(Act::Fin);
+    plan.script = sc;
+    plan.end = End::Fin;
+    plan.read_timeout_ms = r_ms;
+    plan.read_mode = bodyx::ReadMode::Sizes(vec![8192], "8k");
+    plan.rereads = 0;
+    plan.tls = g.chance(1, 3);
+    plan.faults = ConnFaults { window: 64 * 1024, timeout_is_timed_out: g.chance(1, 3), ..Default::default() };
+    let ran = bodyx::run(&plan, ctx, false);
+    let mut stats = Stats::default();
+    stats.absorb(&ran.history);
+    let tag = format!("Resume:{}:{}", phase, ["plain", "gzip", "deflate"][coded as usize]);
+    let verdict = match &ran.observed {
+        None => violation(format!("hang:{}", tag), "run torn down"),
+        Some(Err(m)) => violation("panic", m.clone()),
+        Some(Ok(o)) => {
+            let r_ns = r_ms * NS_PER_MS;
+            let slow = ran.history.conns.iter().flat_map(|c| c.events.iter()).find_map(|e| match e {
+                ConnEv::Read { t_in, t_out, res, .. } if t_out - t_in > r_ns => Some((*t_in, *t_out, format!("{:?}", res))),
+                _ => None,
+            });
+            if let Some((a, b, res)) = slow {
+                violation(format!("read-timeout-not-enforced:{}", tag), format!("a transport read waited {} ms, read timeout is {} ms (result {})", (b - a) / NS_PER_MS, r_ms, res))
+            } else if o.send_err.is_none() && o.calls.iter().all(|c| c.res.is_ok()) {
+                violation(
+                    format!("stall-longer-than-the-read-timeout-unreported:{}", tag),
+                    format!(
+                        "the peer went silent for {} ms after {} of {} response bytes ({}), the read timeout is {} ms: send() and all {} reads returned Ok ({} body bytes)",
+                        pause_ms,
+                        k,
+                        wire.len(),
+                        phase,
+                        r_ms,
+                        o.calls.len(),
+                        o.output.len()
+                    ),
+                )
+            } else if !httpref::is_prefix(&o.output, &plan.payload) {
+                violation(format!("prefix-violated:{}", tag), "bytes read are not a prefix of the payload")
+            } else {
+                Verdict::Pass
+            }
+        }
+    };
+    RunReport {
+        verdict,
+        shape: format!("resume/{}/{:?}/R={}/P={}/tls={}", tag, plan.framing, r_ms, pause_ms * 10 / r_ms, plan.tls),
+        nontrivial: true,
+        stats,
+        sched_tape: ran.sched_tape,
+        describe: if ctx.describe { format!("R={}ms pause={}ms at {} ({}) {}", r_ms, pause_ms, k, phase, plan.describe()) } else { String::new() },
+    }
+}
+
 pub fn scenario(g: &mut G, ctx: &RunCtx) -> RunReport {
     let p = gen(g, ctx.thorough);
+    // drawn after the plan: recorded tapes keep their meaning
+    if g.chance(1, 10) {
+        return resume_family(g, ctx);
+    }
     match p.fam {
         Family::NoFalseTimeout => g.probe("family:no-false-timeout"),
         Family::Stall => g.probe("family:stall"),
